@@ -325,4 +325,43 @@ pub fn check(ctx: &Ctx, rep: &mut Report) {
             rep.sample(json!({"input": show(&s), "kind": "quoted", "tokens": toks.len()}));
         }
     }
+    // word-run cases: a word (identifier / number) is one unquoted token. Words start with a letter — of any
+    // script, as all three engines allow in identifiers — or a digit and continue with letters, digits, `_`, `$`.
+    let nw = ctx.size(60_000, 2_000_000) / ctx.nshards;
+    for k in 0..nw {
+        let n = total + (1 << 41) + k;
+        if !ctx.wants(n) {
+            continue;
+        }
+        let mut rng = ctx.rng("word", k);
+        const START: [char; 10] = ['a', 'Z', 'q', '\u{e9}', '\u{df}', '\u{44f}', '\u{4e2d}', '7', '0', 'x'];
+        const CONT: [char; 12] = ['a', 'Z', '\u{e9}', '\u{44f}', '\u{4e2d}', '1', '9', '_', '_', '$', '$', 'b'];
+        let mut word = String::new();
+        word.push(*rng.pick(&START));
+        for _ in 0..rng.below(7) {
+            word.push(*rng.pick(&CONT));
+        }
+        let prefix = *rng.pick(&["", " ", "x = ", "f(", "a,", "?", "'s'", "\t"]);
+        let suffix = *rng.pick(&["", " ", " = ?", ")", ",b", "'s'", "?", "\"q\"", "\n"]);
+        let s = format!("{prefix}{word}{suffix}");
+        let toks = match basic(ctx, rep, n, &s) {
+            Some(t) => t,
+            None => continue,
+        };
+        rep.count("word_cases", 1);
+        let mut off = 0usize;
+        let mut ok = false;
+        let mut got = String::new();
+        for t in &toks {
+            if off == prefix.len() {
+                got = format!("{t:?}");
+                ok = matches!(t, Token::Unquoted(x) if x == &word);
+                break;
+            }
+            off += t.as_str().len();
+        }
+        if !ok {
+            rep.violation("R.word-run", "-", shape(&word), json!({"input": show(&s), "expected_unquoted": show(&word), "got": got, "tokens": format!("{toks:?}")}), ctx.shard, n);
+        }
+    }
 }
